@@ -153,4 +153,45 @@ CLAIMS = {
         note="Hash seeds 0..7 quick, 0..63 thorough; the seed space (2^32) is sampled by enumeration of a prefix - set iteration "
         "order of <= 8 symbols takes few distinct values, which 64 seeds cover with overwhelming likelihood but not provably.",
     ),
+    "C16": dict(
+        category="exploration",
+        ref="4/C16",
+        technique="exhaustive enumeration of models x sensor sets x thresholds x all data matrices of <= 3 rows over a 3-row alphabet on the real adapter, against the exported filter run by hand and the reference EKF",
+        text="Every data matrix of the bounded alphabet is pushed through the real SklearnEKFAdapter.transform / mahalanobis / "
+        "score; results must equal the NIS of the exported filter run by hand in sorted key order with dt = 0.1 and, "
+        "independently, the reference EKF with the innovation gate; score components follow the documented formula; "
+        "parameters are snapshotted around every call.",
+        note="The hand-run uses the filter returned by export_python(); the reference EKF is the 50-digit textbook filter.",
+    ),
+    "C17": dict(
+        category="exploration",
+        ref="4/C17",
+        technique="exhaustive enumeration of Config field x value (singles and all cross-field pairs) for set_params, round-trips and clone on 8 estimators, and of a fixed menu of (estimator, training matrix) fits, on the real adapter",
+        text="Parameter half is a complete enumeration of the Config field/value domain (every single and every pair of fields) "
+        "with exact before/after comparison of all parameters; fit half runs every pair of the menu and classifies the "
+        "outcome: only MinimizationFailure or a retuned-noise estimator with unchanged structure are allowed.",
+        note="Each objective evaluation recompiles the filter; 12 (estimator, matrix) pairs quick, 48 thorough.",
+    ),
+    "C18": dict(
+        category="model_checking",
+        ref="4/C18",
+        technique="explicit-state BFS over the real workflow objects (every available transition executed), search() compared with shortest paths of the executed graph for every (state, target) pair; exhaustive menu of hyper-parameter grids and too-small data sets for fit_model",
+        text="The workflow's reachable state graph is built by executing every offered transition on the real objects; in every "
+        "state the history and the result of search() towards every StateId (and non-StateId targets) are checked against "
+        "the executed graph. fit_model is run on every grid of a menu over the supported hyper-parameters and on every "
+        "too-small data size; the selected configuration must come from the grid and be exported unchanged.",
+        note="The graph is tiny (3 states); the value of the exploration is that nothing about it is hard-coded except the declared "
+        "order Start -> Symbolic_Model -> Fit_Model.",
+    ),
+    "C19": dict(
+        category="exploration",
+        ref="4/C19",
+        technique="exhaustive evaluation of the real symbolic model in exact rational arithmetic on a product grid of (non-unit) quaternions x force/bias/gyro menus x g x dt against an independent quaternion-algebra reference; compiled model checked on a sub-grid",
+        text="All 16 update expressions are compared for exact equality (Fractions, no tolerance) with a 25-line reference at "
+        "every point of the product grid, which contains non-unit and dense quaternions so the |q|^2 normalisation, the "
+        "composition order, conjugation signs, bias sign, gravity sign and the dt integrals are each pinned by several "
+        "points; the compiled Python model is evaluated in floats against the same reference.",
+        note="Reference = Hamilton product, rotation q v q*/|q|^2, constant-acceleration integrals. Exactness relies on the "
+        "model's float coefficients being dyadic.",
+    ),
 }
